@@ -42,7 +42,7 @@ type textDoc struct {
 // textCorpus analyses every live document that carries a string under prop.
 func (m *RefShard) textCorpus(prop string) map[uuid.UUID]textDoc {
 	out := map[uuid.UUID]textDoc{}
-	for id, d := range m.Docs {
+	for id, d := range detRange(m.Docs) {
 		raw, ok := Lookup(d, prop)
 		if !ok {
 			continue
@@ -73,8 +73,8 @@ func (m *RefShard) EvalText(prop, query, operator string, filter *IDSet) (map[uu
 		terms[t] = true
 	}
 	df := map[string]int{}
-	for t := range terms {
-		for _, td := range corpus {
+	for t := range detRange(terms) {
+		for _, td := range detRange(corpus) {
 			if td.freq[t] > 0 {
 				df[t]++
 			}
@@ -82,12 +82,12 @@ func (m *RefShard) EvalText(prop, query, operator string, filter *IDSet) (map[uu
 	}
 	n := float64(len(corpus))
 	out := map[uuid.UUID]float64{}
-	for id, td := range corpus {
+	for id, td := range detRange(corpus) {
 		if filter != nil && !filter.Must[id] {
 			continue
 		}
 		hit, all := false, true
-		for t := range terms {
+		for t := range detRange(terms) {
 			if td.freq[t] > 0 {
 				hit = true
 			} else {
@@ -102,7 +102,7 @@ func (m *RefShard) EvalText(prop, query, operator string, filter *IDSet) (map[uu
 			continue
 		}
 		score := 0.0
-		for t := range terms {
+		for t := range detRange(terms) {
 			tf := float64(td.freq[t]) / float64(td.len)
 			score += tf * math.Log10(n/float64(df[t]+1))
 		}
@@ -120,7 +120,7 @@ func CheckTextAnswer(want map[uuid.UUID]float64, got []Item, limit int, weight *
 		w = float64(*weight)
 	}
 	neg := map[uuid.UUID]float64{}
-	for id, s := range want {
+	for id, s := range detRange(want) {
 		neg[id] = -s
 	}
 	seen := map[int]bool{}
